@@ -10,8 +10,8 @@ from common import BUILD, sha
 CACHE = os.path.join(BUILD, "cache")
 
 
-ROOT_OF = {"lexcfg": "LexerMC", "respell": "LexerRespellMC", "literals": "LiteralsMC", "driver": "DriverMC", "normsim": "ViolMC",
-           "normexh": "ViolMC", "violexh": "ViolMC", "limits": "LimitsMC", "header42": "Header42MC", "guard": "GuardMC",
+ROOT_OF = {"lexcfg": "LexerMC", "respell": "LexerRespellMC", "literals": "LiteralsMC", "driver": "DriverMC", "normsim": "ViolMC+NormMC",
+           "normexh": "ViolMC+NormMC", "violexh": "ViolMC", "limits": "LimitsMC", "header42": "Header42MC", "guard": "GuardMC",
            "locality": "LocalityMC", "edits": "EditsMC", "garbage": "GarbageMC", "report": "Report",
            "respellprog": "RespellProgMC", "enginemc": "EngineMC", "tokedits": "TokEdits"}
 
@@ -20,7 +20,7 @@ def closure(root):
     """the modules of /verif/spec that `root` depends on (EXTENDS / INSTANCE, transitively)"""
     import re
     from common import SPEC
-    seen, todo = [], [root]
+    seen, todo = [], root.split("+")
     while todo:
         m = todo.pop()
         f = os.path.join(SPEC, m + ".tla")
